@@ -1,1 +1,4 @@
 -- generated
+import Generated.Flags
+import Generated.Routes
+import Generated.Defaults
